@@ -59,7 +59,18 @@ pub struct PropMeta {
 
 /// Records what the job is about to do, so that the parent can name the case if real server code
 /// kills the process (allocation failure, stack overflow, abort).
+/// (first breadcrumb, latest breadcrumb, how many, latest text) - read by the no-progress watchdog
+pub static CRUMBS: std::sync::Mutex<Option<(Instant, Instant, u64, String)>> = std::sync::Mutex::new(None);
+
 pub fn breadcrumb(v: &Value) {
+    if let Ok(mut g) = CRUMBS.lock() {
+        let now = Instant::now();
+        let text = v.to_string();
+        *g = Some(match g.take() {
+            Some((first, _, n, _)) => (first, now, n + 1, text),
+            None => (now, now, 1, text),
+        });
+    }
     if let Ok(p) = std::env::var("VX_BREADCRUMB") {
         let _ = std::fs::write(p, v.to_string());
     }
